@@ -435,14 +435,28 @@ impl WorkerSession {
 
     /// drive the channel read and write
     pub fn ready(&mut self) -> WorkerResult {
+        // a write that fails on a dead peer (EPIPE) makes the channel forget its readiness, HUP
+        // included, and the event is edge-triggered: remember that the peer hung up before
+        // driving the channel, or a worker that dies while a request is waiting to be written
+        // to it is never noticed and every request scattered to it waits for ever
+        let hung_up = self.channel.readiness.is_error() || self.channel.readiness.is_hup();
         let status = self.channel.writable();
         trace!("Worker writable: {:?}", status);
+        let write_failed = matches!(
+            status,
+            Err(sozu_command_lib::channel::ChannelError::NoByteWritten)
+                | Err(sozu_command_lib::channel::ChannelError::Read(_))
+        );
         let responses = extract_messages(&mut self.channel);
         if !responses.is_empty() {
             return WorkerResult::NewResponses(responses);
         }
 
-        if self.channel.readiness.is_error() || self.channel.readiness.is_hup() {
+        if hung_up
+            || write_failed
+            || self.channel.readiness.is_error()
+            || self.channel.readiness.is_hup()
+        {
             debug!("worker {} is unresponsive, closing the session", self.id);
             return WorkerResult::CloseSession;
         }
